@@ -76,6 +76,21 @@ def cases(tier, seed):
         cfg = {"optics": o, "scat": {"t": "spheres", "members": mem}, "theory": {"t": "auto"}, "det": scat.gen_points(rng, n=6)}
         out.append({"id": "auto-%d" % i, "kind": "cov", "ckind": "auto_cluster", "cfg": cfg, "alpha": [math.pi / 4, 0.3, 2.5, math.pi / 2][i % 4] if i % 2 else float(rng.uniform(0, 2 * math.pi)),
                     "pix": [1, -2], "shift": [float(rng.normal()), float(rng.normal())], "cost": 10})
+    # refusals are covariant too: a cluster that is refused as too extended is refused in every orientation
+    for i in range(8 if tier == "quick" else 60):
+        o = scat.gen_optics(rng)
+        k = scat.kmed(o)
+        r = float(rng.uniform(0.5, 1.5)) / k
+        # relative to the centroid the far sphere sits at 2/3 of this distance, the near ones at 1/3 on the other side:
+        # only the far one is beyond Multisphere's stated limit of 1e4/k, on the positive or on the negative side
+        far = float(rng.uniform(1.6e4, 2.8e4)) / k * (1 if i % 2 else -1)
+        axis = i // 2 % 2
+        c0 = [0.5, 0.7, 20.0 / k + 10 * r]
+        c2 = list(c0); c2[axis] += far
+        mem = [{"t": "sphere", "n": scat.gen_index(rng, o, False), "r": r, "c": c0}, {"t": "sphere", "n": scat.gen_index(rng, o, False), "r": r, "c": [c0[0] + 3 * r, c0[1], c0[2]]},
+               {"t": "sphere", "n": scat.gen_index(rng, o, False), "r": r, "c": c2}]
+        cfg = {"optics": o, "scat": {"t": "spheres", "members": mem}, "theory": {"t": "Multisphere", "kw": {}}, "det": scat.gen_points(rng, n=3)}
+        out.append({"id": "guard-%d" % i, "kind": "guard", "cfg": cfg, "cost": 3})
     ns = 40 if tier == "quick" else 800
     for i in range(ns):
         o = scat.gen_optics(rng, pol="axis")
@@ -110,6 +125,19 @@ def _run(cfg, want_field=True, th=None):
 @scat.guarded
 def run_case(case):
     return globals()["_run_" + case["kind"]](case)
+
+
+def _run_guard(case):
+    from holopy.scattering.errors import InvalidScatterer
+    cfg = case["cfg"]
+    outcomes = []
+    for c in (cfg, scat.mirror_config(cfg), scat.rotate_config(cfg, math.pi, rotate_pol=True), scat.rotate_config(cfg, math.pi / 2, rotate_pol=True)):
+        try:
+            h, _ = _run(c, want_field=False)
+            outcomes.append("value")
+        except InvalidScatterer:
+            outcomes.append("refused")
+    return {"resid": {}, "flags": {"refusal_same_in_every_orientation": bool(len(set(outcomes)) == 1)}, "outcomes": outcomes, "fmax": 1.0}
 
 
 def _run_cov(case):
@@ -202,6 +230,9 @@ def judge(case, obs):
     out = []
     for k, v in obs.get("flags", {}).items():
         if not v:
+            if k == "refusal_same_in_every_orientation":
+                out.append({"mech": "guard.%s" % k, "detail": "outcomes for (as given, mirrored, turned by pi, turned by pi/2): %s" % obs.get("outcomes")})
+                continue
             out.append({"mech": "auto.%s" % k, "detail": "theories chosen for (as given, shifted, rotated, mirrored): %s; alpha=%s" % (obs.get("chosen"), case.get("alpha"))})
     for k, v in obs["resid"].items():
         base = k.split("@")[0]
